@@ -1,0 +1,136 @@
+//go:build verif
+
+package contentstream
+
+// Contracts for gocv (comment-only; see /verif/DESIGN.md).  No executable code.
+
+// ISO 32000-1 7.2.2 / 7.2.3 character classes (Table 1 white-space, Table 2 delimiters)
+//@ spec func pdfWS(b int) bool = b == 0 || b == 9 || b == 10 || b == 12 || b == 13 || b == 32
+//@ spec func pdfDelim(b int) bool = b == '(' || b == ')' || b == '<' || b == '>' || b == '[' || b == ']' || b == '{' || b == '}' || b == '/' || b == '%'
+//@ spec func pdfHexDigit(b int) bool = (b >= '0' && b <= '9') || (b >= 'a' && b <= 'f') || (b >= 'A' && b <= 'F')
+//@ spec func pdfHexVal(b int) int = (b >= '0' && b <= '9') ? b - '0' : ((b >= 'a' && b <= 'f') ? b - 'a' + 10 : ((b >= 'A' && b <= 'F') ? b - 'A' + 10 : 0))
+
+// One meaning of the lexical classes in all three scanners (document parser, content-stream parser, filters).
+//@ lemma ws_agree(b byte)
+//@   property C06
+//@   ensures contentstream: isWhitespace(b) == pdfWS(b)
+//@   ensures core: core.isWhitespace(b) == pdfWS(b)
+//@   ensures filters: filters.isWhitespace(b) == pdfWS(b)
+
+//@ lemma delim_agree(b byte)
+//@   property C06
+//@   ensures contentstream: isDelimiter(b) == pdfDelim(b)
+//@   ensures core: core.isDelimiter(b) == pdfDelim(b)
+
+//@ lemma hex_agree(b byte)
+//@   property C06
+//@   ensures digit_cs: isHexDigit(b) == pdfHexDigit(b)
+//@   ensures digit_core: core.isHexDigit(b) == pdfHexDigit(b)
+//@   ensures value_cs: hexValue(b) == pdfHexVal(b)
+//@   ensures value_core: core.hexValue(b) == pdfHexVal(b)
+//@   ensures value_filters: pdfHexDigit(b) ==> filters.hexDigitToByte(b) == pdfHexVal(b) && !filters.hexDigitToByte$1(b)
+//@   ensures reject_filters: !pdfHexDigit(b) ==> filters.hexDigitToByte$1(b)
+
+// Parser well-formedness and frame
+//@ spec func pinv(p Parser) bool = 0 <= p.pos && p.pos <= len(p.data)
+//@ spec func psame(p Parser, q Parser) bool = same(p.data, q.data) && same(p.ops, q.ops) && same(p.operands, q.operands)
+
+//@ func (*Parser) skipWhitespace
+//@   property C02, C06
+//@   requires pinv(p)
+//@   ensures pinv(p) && p.pos >= old(p.pos) && psame(p, old(p))
+//@   ensures stop: p.pos < len(p.data) ==> !pdfWS(p.data[p.pos])
+//@   ensures skipped: forall k int :: {p.data[k]} old(p.pos) <= k && k < p.pos ==> pdfWS(p.data[k])
+//@   loop 0:
+//@     invariant pinv(p) && p.pos >= old(p.pos) && psame(p, old(p))
+//@     invariant forall k int :: {p.data[k]} old(p.pos) <= k && k < p.pos ==> pdfWS(p.data[k])
+//@     decreases len(p.data) - p.pos
+
+//@ func (*Parser) parseNumber results (obj, err)
+//@   property C02
+//@   requires pinv(p) && p.pos < len(p.data)
+//@   requires first: p.data[p.pos] == '-' || p.data[p.pos] == '+' || p.data[p.pos] == '.' || (p.data[p.pos] >= '0' && p.data[p.pos] <= '9')
+//@   ensures pinv(p) && p.pos > old(p.pos) && psame(p, old(p))
+//@   loop 0:
+//@     invariant pinv(p) && p.pos >= old(p.pos) && psame(p, old(p))
+//@     invariant p.pos == old(p.pos) ==> !hasDecimal && !(p.data[p.pos] == '+' || p.data[p.pos] == '-')
+//@     decreases len(p.data) - p.pos
+
+//@ func (*Parser) parseString results (obj, err)
+//@   property C02
+//@   requires pinv(p) && p.pos < len(p.data)
+//@   ensures pinv(p) && psame(p, old(p)) && p.pos >= old(p.pos) && (!err ==> p.pos > old(p.pos))
+//@   loop 0:
+//@     invariant pinv(p) && psame(p, old(p)) && p.pos > old(p.pos) && depth >= 0
+//@     decreases len(p.data) - p.pos
+//@   loop 1:
+//@     invariant pinv(p) && psame(p, old(p)) && p.pos >= entry(p.pos) && 0 <= i && i <= 2
+
+//@ func (*Parser) parseHexString results (obj, err)
+//@   property C02
+//@   requires pinv(p) && p.pos < len(p.data)
+//@   ensures pinv(p) && psame(p, old(p)) && p.pos >= old(p.pos) && (!err ==> p.pos > old(p.pos))
+//@   loop 0:
+//@     invariant pinv(p) && psame(p, old(p)) && p.pos > old(p.pos)
+//@     decreases len(p.data) - p.pos
+
+//@ func (*Parser) parseName results (obj, err)
+//@   property C02
+//@   requires pinv(p) && p.pos < len(p.data)
+//@   ensures pinv(p) && psame(p, old(p)) && p.pos >= old(p.pos) && (!err ==> p.pos > old(p.pos))
+//@   loop 0:
+//@     invariant pinv(p) && psame(p, old(p)) && p.pos > old(p.pos)
+//@     decreases len(p.data) - p.pos
+
+// operand parsing is mutually recursive; measure = (bytes left, rank)
+//@ func (*Parser) parseOperand results (obj, err)
+//@   property C02
+//@   requires pinv(p)
+//@   decreases len(p.data) - p.pos, 2
+//@   ensures pinv(p) && psame(p, old(p)) && p.pos >= old(p.pos) && (!err ==> p.pos > old(p.pos))
+//@   loop 0:
+//@     invariant pinv(p) && psame(p, old(p)) && p.pos <= end && end <= len(p.data)
+//@     decreases len(p.data) - end
+
+//@ func (*Parser) parseArray results (obj, err)
+//@   property C02
+//@   requires pinv(p) && p.pos < len(p.data)
+//@   decreases len(p.data) - p.pos, 1
+//@   ensures pinv(p) && psame(p, old(p)) && p.pos >= old(p.pos) && (!err ==> p.pos > old(p.pos))
+//@   loop 0:
+//@     invariant pinv(p) && psame(p, old(p)) && p.pos > old(p.pos)
+//@     decreases len(p.data) - p.pos
+
+//@ func (*Parser) parseDict results (obj, err)
+//@   property C02
+//@   requires pinv(p)
+//@   decreases len(p.data) - p.pos, 1
+//@   ensures pinv(p) && psame(p, old(p)) && p.pos >= old(p.pos) && (!err ==> p.pos > old(p.pos))
+//@   loop 0:
+//@     invariant pinv(p) && psame(p, old(p)) && p.pos > old(p.pos)
+//@     decreases len(p.data) - p.pos
+
+//@ func (*Parser) parseOperator results (err)
+//@   property C02, C03
+//@   requires pinv(p) && p.pos < len(p.data) && isLetter(p.data[p.pos])
+//@   ensures pinv(p) && same(p.data, old(p.data)) && p.pos > old(p.pos) && !err
+//@   ensures grouped: len(p.ops) == len(old(p.ops)) + 1 && len(p.operands) == 0
+//@   ensures operands: let o = p.ops[len(old(p.ops))] in len(o.Operands) == len(old(p.operands)) && forall k int :: {o.Operands[k]} 0 <= k && k < len(old(p.operands)) ==> o.Operands[k] == old(p.operands)[k]
+//@   ensures earlier_ops: forall k int :: {p.ops[k]} 0 <= k && k < len(old(p.ops)) ==> p.ops[k] == old(p.ops)[k]
+//@   loop 0:
+//@     invariant pinv(p) && psame(p, old(p)) && p.pos >= old(p.pos) && (p.pos == old(p.pos) ==> len(op) == 0) && (p.pos > old(p.pos) ==> len(op) > 0)
+//@     decreases len(p.data) - p.pos
+
+//@ func (*Parser) parseNext results (err)
+//@   property C02, C03
+//@   requires pinv(p)
+//@   ensures pinv(p) && same(p.data, old(p.data)) && p.pos >= old(p.pos)
+//@   ensures progress: !err && old(p.pos) < len(p.data) ==> p.pos > old(p.pos)
+
+//@ func (*Parser) Parse results (ops, err)
+//@   property C02, C03
+//@   requires pinv(p)
+//@   ensures pinv(p)
+//@   loop 0:
+//@     invariant pinv(p) && same(p.data, old(p.data))
+//@     decreases len(p.data) - p.pos
